@@ -13,6 +13,7 @@ mod c10;
 mod c18;
 mod c12;
 mod c19;
+mod c16;
 
 fn main() {
     std::panic::set_hook(Box::new(|_| {}));
@@ -56,6 +57,9 @@ fn main() {
         "c12-record" => c12::record(rest),
         "c19-replay" => c19::replay(rest),
         "c19-record" => c19::record(rest),
+        "c16-unit" => c16::unit(rest),
+        "c16-replay" => c16::replay(rest),
+        "c16-record" => c16::record(rest),
         x => {
             eprintln!("unknown subcommand {}", x);
             std::process::exit(2);
